@@ -109,6 +109,7 @@ type Task struct {
 	entry   *entry
 	spawned map[string]int
 	dying   bool
+	exiting bool // unwinding via Goexit: shims reached from deferred calls pass through
 	done    bool
 	fake    map[uintptr]int // locks "held" only nominally while dying
 	client  bool
@@ -130,6 +131,7 @@ type Stats struct {
 	VirtualNs   int64
 	Truncated   bool
 	Stuck       bool
+	StuckInfo   []string
 	Leaked      int
 	TaskPanics  []string
 }
@@ -525,6 +527,18 @@ func (s *Sim) loop() {
 			if !now.Before(deadline) {
 				s.Stats.Truncated = true
 				s.Stats.Stuck = true
+				s.mu.Lock()
+				for _, t := range s.all {
+					if t.done {
+						continue
+					}
+					if t.entry != nil {
+						s.Stats.StuckInfo = append(s.Stats.StuckInfo, fmt.Sprintf("%s parked %s %s dead=%v", t.Name, kindNames[t.entry.kind], t.entry.site, s.deadNode[t.Node]))
+					} else {
+						s.Stats.StuckInfo = append(s.Stats.StuckInfo, fmt.Sprintf("%s blocked outside simrt dead=%v", t.Name, s.deadNode[t.Node]))
+					}
+				}
+				s.mu.Unlock()
 				return
 			}
 			d := deadline.Sub(now)
@@ -677,6 +691,14 @@ func (s *Sim) fireCrashes() {
 // its next (or current) shim. The registered crash hook then runs.
 func (s *Sim) CrashNode(node string) {
 	s.mu.Lock()
+	hook := s.crashHooks[node]
+	s.mu.Unlock()
+	if hook != nil {
+		// the world owns incarnations: its hook picks the live one and calls KillNode
+		hook()
+		return
+	}
+	s.mu.Lock()
 	inc := ""
 	for _, t := range s.all {
 		if !t.done && (t.Node == node || strings.HasPrefix(t.Node, node+"#")) && !s.deadNode[t.Node] {
@@ -684,15 +706,9 @@ func (s *Sim) CrashNode(node string) {
 			break
 		}
 	}
-	hook := s.crashHooks[node]
-	if inc != "" {
-		s.deadNode[inc] = true
-		s.Stats.FaultsFired["crash"]++
-		s.record(true, "crash", node, inc)
-	}
 	s.mu.Unlock()
-	if hook != nil {
-		hook()
+	if inc != "" {
+		s.KillNode(inc)
 	}
 }
 
@@ -703,10 +719,15 @@ func (s *Sim) NodeDead(inc string) bool {
 	return s.deadNode[inc]
 }
 
-// KillNode marks an exact incarnation dead without running hooks.
+// KillNode marks an exact incarnation dead: each of its tasks ends at its
+// current or next shim; its in-flight I/O is applied or dropped by a draw.
 func (s *Sim) KillNode(inc string) {
 	s.mu.Lock()
-	s.deadNode[inc] = true
+	if !s.deadNode[inc] {
+		s.deadNode[inc] = true
+		s.Stats.FaultsFired["crash"]++
+		s.record(true, "crash", inc)
+	}
 	s.mu.Unlock()
 }
 
@@ -818,6 +839,7 @@ func (s *Sim) park(t *Task, e *entry) Outcome {
 	if out.poison {
 		t.dying = true
 		if e.kind != kIO {
+			t.exiting = true
 			runtime.Goexit()
 		}
 	}
@@ -923,7 +945,7 @@ func WrapVoid(site string, fn func()) func() {
 // Yield is a plain scheduling point.
 func Yield(site string) {
 	s, t := current()
-	if s == nil || t.dying {
+	if s == nil || checkDying(s, t) {
 		return
 	}
 	s.park(t, &entry{kind: kYield, site: site})
@@ -936,7 +958,7 @@ func Sleep(d time.Duration) {
 		time.Sleep(d)
 		return
 	}
-	if t.dying {
+	if checkDying(s, t) {
 		return
 	}
 	s.park(t, &entry{kind: kSleep, site: "sleep", ready: time.Now().Add(d)})
@@ -1005,19 +1027,25 @@ func (s *Sim) dyingUnlock(t *Task, k uintptr) bool {
 }
 
 func checkDying(s *Sim, t *Task) bool {
-	if t.dying {
-		return true
-	}
-	if t.Node != "" {
+	if !t.dying && t.Node != "" {
 		s.mu.Lock()
 		d := s.deadNode[t.Node]
 		s.mu.Unlock()
 		if d {
 			t.dying = true
-			return true
 		}
 	}
-	return false
+	if !t.dying {
+		return false
+	}
+	// The first shim a dead task reaches ends it (deferred calls still run, and
+	// application code cannot recover from it); shims reached while it unwinds
+	// pass through without parking.
+	if !t.exiting {
+		t.exiting = true
+		runtime.Goexit()
+	}
+	return true
 }
 
 // Lock is the woven replacement of (*sync.Mutex).Lock.
@@ -1064,7 +1092,7 @@ func TryLock(m *sync.Mutex, site string) bool {
 		return m.TryLock()
 	}
 	k := key(unsafe.Pointer(m))
-	if !t.dying {
+	if !checkDying(s, t) {
 		s.park(t, &entry{kind: kYield, site: site})
 	}
 	s.mu.Lock()
@@ -1174,7 +1202,7 @@ func CondWait(c *sync.Cond, site string) {
 	mk := key(unsafe.Pointer(m))
 	ck := key(unsafe.Pointer(c))
 	if checkDying(s, t) {
-		runtime.Goexit()
+		return // unwinding: nothing sensible to wait for
 	}
 	m.Unlock()
 	s.mu.Lock()
@@ -1257,6 +1285,7 @@ func IO(ctx context.Context, opKind, opKey string, latency time.Duration, apply 
 		if out.Arg > 0 {
 			o2 := s.park(t, &entry{kind: kSleep, site: opKind + ".slow", ready: time.Now().Add(time.Duration(out.Arg))})
 			if o2.poison {
+				t.exiting = true
 				runtime.Goexit()
 			}
 		}
@@ -1265,6 +1294,7 @@ func IO(ctx context.Context, opKind, opKey string, latency time.Duration, apply 
 		apply()
 	}
 	if out.poison {
+		t.exiting = true
 		runtime.Goexit()
 	}
 	s.park(t, &entry{kind: kIOResp, site: opKind + ".resp", opKind: opKind, opKey: opKey})
@@ -1309,7 +1339,7 @@ func (f *Future) Wait(ctx context.Context, site string) (v any, ok bool) {
 	if s == nil {
 		panic("Future.Wait outside a simulation task")
 	}
-	if t.dying {
+	if checkDying(s, t) {
 		return nil, false
 	}
 	s.park(t, &entry{kind: kWait, site: site, fut: f, ctx: ctx})
